@@ -35,17 +35,21 @@ var c02Pool = []string{
 	`/a.b/{x}[.html]`,
 	`/t/{x}[/{y:\d+}[/{z}]]`,
 	`/static`,
+	// a custom regex on a variable that carries the name of a global variable: the custom regex rules
+	`/o/{num:\d{3}}`,
+	`/tg/{all:[a-z]+}/feed`,
 }
 
-var c02Values = []string{"1", "20", "ab", "a.b", "é", "a b", "0", "a/b", "", "2024", "x.css", "1.0"}
+var c02Values = []string{"1", "20", "ab", "a.b", "é", "a b", "0", "a/b", "", "2024", "x.css", "1.0", "007", "123"}
 
 type c02Case struct {
 	Pattern string `json:"pattern"`
 	Cache   int    `json:"cache"` // 0 = caching disabled
 	First   string `json:"first_path"`
 	Strict  bool   `json:"strict_last_slash,omitempty"`
-	Twin    string `json:"twin,omitempty"`       // "", "before", "after": a same-shape route with other variable names under POST
-	Redisp  bool   `json:"redispatch,omitempty"` // the route's handler re-dispatches (HandleContext) to a static and to another dynamic route
+	Twin    string `json:"twin,omitempty"`          // "", "before", "after": a same-shape route with other variable names under POST
+	Head    bool   `json:"head_requests,omitempty"` // the history is requested with HEAD (served by the GET route)
+	Redisp  bool   `json:"redispatch,omitempty"`    // the route's handler re-dispatches (HandleContext) to a static and to another dynamic route
 }
 
 var c02VarName = regexp.MustCompile(`\{([a-z]+)`)
@@ -150,6 +154,12 @@ func c02Gen(tier string, emit func(c02Case)) {
 				emit(c02Case{Pattern: pat, Cache: cc, First: paths[i]})
 			}
 		}
+		// HEAD requests are served by the GET route and must see the same parameters (also from the cache)
+		for _, cc := range []int{0, 2} {
+			for i := 0; i < len(paths); i += stride * 4 {
+				emit(c02Case{Pattern: pat, Cache: cc, First: paths[i], Head: true})
+			}
+		}
 		// StrictLastSlash: '/x' and '/x/' are different request paths (and different cache keys)
 		s2 := stride * 3
 		if tier == "thorough" {
@@ -212,7 +222,7 @@ func c02Run(c c02Case, st *fw.Stats) []fw.Viol {
 		paths = c02Paths(c.Pattern)
 	}
 	where := func(seq []string, i int) string {
-		return fmt.Sprintf("routes [%s], cache=%d, strict=%v, request #%d of history %q", defsString(defs), c.Cache, c.Strict, i+1, seq)
+		return fmt.Sprintf("routes [%s], cache=%d, strict=%v, head=%v, request #%d of history %q", defsString(defs), c.Cache, c.Strict, c.Head, i+1, seq)
 	}
 	for _, q := range paths {
 		rec := &hitRec{}
@@ -232,7 +242,11 @@ func c02Run(c c02Case, st *fw.Stats) []fw.Viol {
 			var rt *rux.Route
 			var ps rux.Params
 			useServe := i%2 == 1 || c.Cache == 0
-			if pv := try(func() { rt, ps, _ = r.Match("GET", p) }); pv != nil {
+			method := "GET"
+			if c.Head && i >= 1 {
+				method = "HEAD"
+			}
+			if pv := try(func() { rt, ps, _ = r.Match(method, p) }); pv != nil {
 				add("match:panic", fmt.Sprintf("%s: Match panicked: %v", where(seq, i), pv))
 				break
 			}
@@ -247,7 +261,7 @@ func c02Run(c c02Case, st *fw.Stats) []fw.Viol {
 			}
 			if useServe {
 				rec.n = 0
-				resp, pv := serve(r, "GET", p)
+				resp, pv := serve(r, method, p)
 				if pv != nil {
 					add("serve:panic", fmt.Sprintf("%s: ServeHTTP panicked: %v", where(seq, i), pv))
 					break
